@@ -754,7 +754,13 @@ steps. distinct = (machine, bank at 0xC000, source lock, receiver halt/skip/pref
     for k in 0..n {
         let mut r = rng.fork();
         let m128 = k % 3 != 0;
-        let src = random_state(&mut r, m128, true);
+        let mut src = random_state(&mut r, m128, true);
+        if k % 7 == 6 {
+            // the saving machine stands between the prefixes of a DD/FD/ED chain (a frame end or a breakpoint fell
+            // there): the format has no field for that, but the save must still leave the running machine alone
+            src.pfx = *r.pick(&[2u8, 3, 4]);
+            src.skip = true;
+        }
         let recv = match r.below(8) {
             0 | 1 => MState::fresh(m128),
             2 | 3 => {
